@@ -1,6 +1,7 @@
 """C17 — the language server survives any message sequence (partial)."""
 PID = "C17"
 LEVEL = "proof"
+REPLAY_OP = "lsp.fuzz"
 RULE = ("PROVED part: the Lsp pipeline model (no step is ever blocked, queues drain) and the decision model of the didSave "
         "guard. SAMPLED part: random sequences (length <= 30 thorough / <= 14 quick) over every handled method — document sync, "
         "hover, completion, codeAction, formatting, documentSymbol, foldingRange, inlayHint, codeLens, definition, symbols, "
